@@ -4,6 +4,7 @@ Import ListNotations.
 From Osmo Require Import Base.DecModel C11.Model C11.Arith C11.Basics C11.LInv.
 Open Scope Z_scope.
 
+Ltac rsplit := repeat match goal with |- _ /\ _ => split end.
 Ltac fields H := apply lproj_fields in H; destruct H as [?F1 [?F2 [?F3 [?F4 [?F5 [?F6 ?F7]]]]]].
 
 (* ---- beginUnlock on a lock that is not connected ---- *)
@@ -358,6 +359,134 @@ Proof.
   destruct found; repeat split; reflexivity.
 Qed.
 
+(* ---- MsgUnbondConvertAndStake ---- *)
+Lemma external_delegate_frame : forall st v x st', external_delegate st v x = Ok st' ->
+  lproj st' = lproj st /\ s_mult st' = s_mult st /\ s_deleg st' = s_deleg st /\ s_supply st' = s_supply st /\ s_offset st' = s_offset st.
+Proof.
+  intros st v x st' H. unfold external_delegate in H. destruct (s_vals st v) as [val|]; [|discriminate].
+  destruct (x <? 0); [discriminate|]. destruct ((v_tokens val =? 0) && (0 <? v_shares val)); [discriminate|].
+  injection H as <-. repeat split; reflexivity.
+Qed.
+
+Lemma undelegate_common_linv : forall cfg st sender id st',
+  linv cfg st -> undelegate_common cfg st sender id = Ok st' ->
+  linv cfg st' /\ exists l d v, s_locks st id = Some l /\ s_conn st id = Some (d, v) /\ l_denom l = d /\ l_owner l = sender /\
+    l_end l = 0 /\ c_unb cfg <= l_dur l /\
+    s_conn st' id = None /\ s_synths st' id = [] /\
+    s_locks st' = s_locks st /\ s_now st' = s_now st /\ s_last st' = s_last st /\ s_mult st' = s_mult st /\
+    s_accs st' = s_accs st /\
+    (forall id', id' <> id -> s_conn st' id' = s_conn st id' /\ s_synths st' id' = s_synths st id').
+Proof.
+  intros cfg st sender id st' I H. unfold undelegate_common in H.
+  destruct (s_locks st id) as [l|] eqn:Hl; [|discriminate].
+  destruct (Z.eqb_spec (l_owner l) sender) as [Ho|]; [|discriminate]. cbn [negb] in H.
+  destruct (s_conn st id) as [[d v]|] eqn:Hc; [|discriminate].
+  unfold bind in H.
+  match type of H with match ?c with _ => _ end = _ => destruct c as [st2|] eqn:E2; [|discriminate] end.
+  pose proof E2 as E2'. apply delete_synth_ok in E2'. destruct E2' as [_ [l0 [_ E2']]].
+  apply (remove_staking_linv cfg st id l d v st2 I Hl Hc) in E2.
+  destruct E2 as [I2 [C2 [S2 [K2 [Hd [He [Hdur [M2 [A2 [_ [_ [_ [_ [_ [N2 [T2 O2]]]]]]]]]]]]]]]].
+  destruct (sf_osmo_tokens cfg st2 d (l_amt l)) as [amount|]; [|discriminate].
+  apply force_undelegate_frame in H. destruct H as [E3 Em3]. pose proof E3 as E3'. fields E3'.
+  split; [apply (linv_ext cfg st2); assumption|].
+  exists l, d, v. repeat split; try congruence.
+  - rewrite F5. apply O2. assumption.
+  - rewrite F4, E2'. ssimpl. rewrite upd1_other by assumption. reflexivity.
+Qed.
+
+Lemma convert_trace : forall cfg st sender id v x env_ok st', wf_cfg cfg -> linv cfg st ->
+  convert cfg st sender id v x env_ok = Ok st' ->
+  exists st1 st2 st3 l3,
+    (st1 = st \/ undelegate_common cfg st sender id = Ok st1) /\ linv cfg st1 /\
+    (st2 = st1 \/ exists d0 v0, delete_synth st1 id Unstaking d0 v0 = Ok st2) /\ linv cfg st2 /\
+    (st3 = st2 \/ exists n, begin_unlock st2 id None = Ok (st3, n)) /\ linv cfg st3 /\
+    s_locks st3 id = Some l3 /\ l_end l3 <> 0 /\ external_delegate (del_lock st3 id) v x = Ok st' /\
+    linv cfg st' /\ s_locks st' id = None /\ s_synths st' id = [] /\
+    s_now st' = s_now st /\ (forall id', id' <> id -> s_synths st' id' = s_synths st id' /\ s_locks st' id' = s_locks st id').
+Proof.
+  intros cfg st sender id v x env_ok st' W I H. unfold convert, bind in H.
+  (* the part before convertLockToStake *)
+  assert (P1 : exists st1, (match synth_by_lock st id with
+                            | Ok found => match (match found with
+                                                 | Some y => match y_kind y with Staking => undelegate_common cfg st sender id | Unstaking => Ok st end
+                                                 | None => Ok st end) with Ok a => Ok a | Err e => Err e end
+                            | Err e => Err e end) = Ok st1 /\
+               (st1 = st \/ undelegate_common cfg st sender id = Ok st1) /\
+               linv cfg st1 /\ s_locks st1 = s_locks st /\ s_now st1 = s_now st /\ s_last st1 = s_last st /\
+               (forall id', id' <> id -> s_synths st1 id' = s_synths st id') /\
+               (s_synths st1 id = [] \/ exists y, s_synths st1 id = [y] /\ y_kind y = Unstaking)).
+  { destruct (synth_by_lock_spec cfg st id _ I eq_refl) as [[Hs Er]|[y [Hs Er]]]; rewrite Er in *.
+    - exists st. rsplit; auto.
+    - destruct (y_kind y) eqn:Ek.
+      + destruct (undelegate_common cfg st sender id) as [s1|] eqn:E1; [|discriminate]. pose proof E1 as E1c.
+        apply (undelegate_common_linv cfg) in E1; [|assumption].
+        destruct E1 as [I1 [l0 [d0 [v0 [_ [_ [_ [_ [_ [_ [_ [S1 [K1 [N1 [T1 [_ [_ O1]]]]]]]]]]]]]]]]].
+        exists s1. rsplit; auto. intros id' N. apply O1. assumption.
+      + exists st. rsplit; auto. right. exists y. auto. }
+  destruct P1 as [st1 [E1 [J1 [I1 [K1 [N1 [T1 [O1 S1]]]]]]]].
+  destruct (synth_by_lock st id) as [found|]; [|discriminate].
+  match type of E1 with match ?c with _ => _ end = _ => destruct c as [s1|] eqn:E1'; [|discriminate] end.
+  injection E1 as ->.
+  destruct (s_locks st1 id) as [l|] eqn:Hl; [|discriminate].
+  destruct (negb (l_owner l =? sender)); [discriminate|]. destruct (negb (existsb (Z.eqb (l_denom l)) (c_gamm cfg))); [discriminate|].
+  (* ForceUnlock: drop the synthetic lock *)
+  assert (P2 : exists st2, (match synth_by_lock st1 id with
+                            | Ok found1 => match (match found1 with Some y => delete_synth st1 id (y_kind y) (y_denom y) (y_val y) | None => Ok st1 end)
+                                           with Ok a => Ok a | Err e => Err e end
+                            | Err e => Err e end) = Ok st2 /\
+               (st2 = st1 \/ exists d0 v0, delete_synth st1 id Unstaking d0 v0 = Ok st2) /\
+               linv cfg st2 /\ s_locks st2 = s_locks st1 /\ s_now st2 = s_now st1 /\ s_last st2 = s_last st1 /\ s_synths st2 id = [] /\
+               (forall id', id' <> id -> s_synths st2 id' = s_synths st1 id')).
+  { destruct S1 as [Hs|[y [Hs Hk]]].
+    - unfold synth_by_lock. rewrite Hs. exists st1. rsplit; auto.
+    - unfold synth_by_lock in *. rewrite Hs in *. rewrite Hk in *.
+      destruct (delete_synth st1 id Unstaking (y_denom y) (y_val y)) as [s2|] eqn:E2; [|discriminate]. pose proof E2 as E2c.
+      apply (remove_unstaking_linv cfg) in E2; [|assumption].
+      destruct E2 as [I2 [S2 [C2 [K2 [_ [_ [_ [_ [_ [_ [_ [N2 [T2 [O2 _]]]]]]]]]]]]]].
+      exists s2. rsplit; eauto. }
+  destruct P2 as [st2 [E2 [J2 [I2 [K2 [N2 [T2 [S2 O2]]]]]]]].
+  destruct (synth_by_lock st1 id) as [found1|]; [|discriminate].
+  match type of E2 with match ?c with _ => _ end = _ => destruct c as [s2|] eqn:E2'; [|discriminate] end.
+  injection E2 as ->.
+  assert (Hl2 : s_locks st2 id = Some l) by (rewrite K2; assumption).
+  pose proof (L_lock_wf _ _ I2 _ _ Hl2) as [_ [Wd We]]. pose proof (L_now _ _ I2) as Hn.
+  (* begin unlocking if necessary, then release *)
+  assert (P3 : exists st3 l3, (if l_end l =? 0 then match begin_unlock st2 id None with Ok r => Ok (fst r) | Err e => Err e end else Ok st2) = Ok st3 /\
+               (st3 = st2 \/ exists n, begin_unlock st2 id None = Ok (st3, n)) /\
+               linv cfg st3 /\ s_locks st3 id = Some l3 /\ l_end l3 <> 0 /\ s_synths st3 = s_synths st2 /\ s_now st3 = s_now st2 /\
+               (forall id', id' <> id -> s_locks st3 id' = s_locks st2 id')).
+  { destruct (Z.eqb_spec (l_end l) 0) as [He|Ne].
+    - destruct (begin_unlock st2 id None) as [[s3 n3]|] eqn:E3; [|discriminate]. cbn [fst] in *. pose proof E3 as E3c.
+      apply (begin_unlock_linv cfg) in E3; [|assumption|discriminate].
+      destruct E3 as [l0 [Hl0 [_ [_ [I3 [N3 [S3 [_ [_ [_ [_ [_ [_ [_ [_ [_ Cases]]]]]]]]]]]]]]]].
+      rewrite Hl2 in Hl0. injection Hl0 as <-.
+      destruct Cases as [[_ [_ K3]]|[y [Ey _]]]; [|discriminate].
+      exists s3. eexists. split; [reflexivity|]. split; [right; exists n3; reflexivity|]. split; [assumption|]. split; [rewrite K3, upd1_same; reflexivity|].
+      split; [cbn; lia|]. split; [assumption|]. split; [assumption|]. intros id' N. rewrite K3. apply upd1_other. assumption.
+    - exists st2, l. rsplit; auto. }
+  destruct P3 as [st3 [l3 [E3 [J3 [I3 [Hl3 [Ne3 [S3 [N3 O3]]]]]]]]].
+  match type of H with match ?c with _ => _ end = _ => destruct c as [s3|] eqn:E3'; [|discriminate] end.
+  injection E3 as ->.
+  destruct (negb env_ok); [discriminate|].
+  pose proof (del_lock_linv cfg st3 id l3 I3 Hl3 Ne3) as I4. pose proof H as Hx.
+  apply external_delegate_frame in H. destruct H as [Fr _]. pose proof Fr as Fr'. fields Fr'.
+  exists st1, st2, st3, l3. rsplit; try assumption.
+  apply (linv_ext cfg (del_lock st3 id)); assumption.
+  all: rewrite ?F2, ?F4, ?F1; ssimpl; rewrite ?upd1_same; try reflexivity; try (rewrite S3; assumption); try congruence.
+  intros id' N. split.
+  - rewrite S3, O2, O1 by assumption. reflexivity.
+  - rewrite upd1_other by assumption. rewrite O3, K2, K1 by assumption. reflexivity.
+Qed.
+
+Lemma convert_linv : forall cfg st sender id v x env_ok st', wf_cfg cfg -> linv cfg st ->
+  convert cfg st sender id v x env_ok = Ok st' -> linv cfg st' /\ s_locks st' id = None /\ s_synths st' id = [] /\
+  s_now st' = s_now st /\ (forall id', id' <> id -> s_synths st' id' = s_synths st id' /\ s_locks st' id' = s_locks st id').
+Proof.
+  intros cfg st sender id v x env_ok st' W I H. apply (convert_trace cfg) in H; try assumption.
+  destruct H as [st1 [st2 [st3 [l3 [_ [_ [_ [_ [_ [_ [_ [_ [_ H]]]]]]]]]]]]]. exact H.
+Qed.
+
+
 (* ---- slashing preserves the structural invariant (fractions below 1) ---- *)
 Lemma slash_lock_linv : forall cfg st id d v f, linv cfg st -> 0 <= f < P18 -> linv cfg (slash_lock st id d v f).
 Proof.
@@ -524,6 +653,9 @@ Proof.
   - (* OForceUnlock *)
     destruct (force_unlock cfg st sender id) as [s|] eqn:E; [|discriminate]. injection H as <- _.
     apply (force_unlock_linv cfg) in E; [tauto|assumption].
+  - (* OConvert *)
+    destruct (convert cfg st sender id v x env_ok) as [s|] eqn:E; [|discriminate]. injection H as <- _.
+    apply (convert_linv cfg) in E; [tauto|assumption|assumption].
   - (* OWithdraw *)
     unfold unlock_matured_lock in H. destruct (s_locks st id) as [l|] eqn:Hl; [|discriminate].
     destruct (Z.eqb_spec (l_end l) 0); [discriminate|]. destruct (s_now st <? l_end l); [discriminate|].
